@@ -724,6 +724,93 @@ static void sid_set_ticket_from(sslSessionId_t *b, const sslSessionId_t *a)
     }
 }
 
+/* part Y: a TLS 1.2 ticket offered in a ClientHello whose supported_versions extension (appended on the wire) selects
+ * another version than legacy_version: ops[0] = the version named there (0x0302 TLS 1.1, 0x0303 control) */
+static void run_case_y(case_t *c, mx_result_t *r)
+{
+    static hist_t H;
+    wcfg_t cf;
+    unsigned char ssec[48], ch[4096];
+    int slen = 0, res, sv = c->ops[0], chl, off, el;
+    wire_t *q;
+    ssl_t *srv;
+    const char *viol = NULL;
+    memset(&H, 0, sizeof(H));
+    H.mode = M_TICKET12;
+    memset(&cf, 0, sizeof(cf));
+    cf.ver = V_MULTI; cf.cver = V_TLS12; cf.kx = KX_RSA; cf.tickets = 1; cf.suite = TLS_RSA_WITH_AES_128_CBC_SHA;
+    r->nontrivial = 1;
+    snprintf(r->outcome, sizeof(r->outcome), "partY:supported_versions=%04x", sv);
+    if (world_init(&H.w, &cf) < 0)
+    {
+        goto internal;
+    }
+    world_free_sessions(&H.w);
+    H.store[0] = H.w.sid;
+    matrixSslClearSessionId(H.store[0]);
+    res = connect_once(&H, 0, 0, 0, ssec, &slen);
+    if (res < 0 || !(res & 1) || H.store[0]->sessionTicketLen == 0)
+    {
+        goto internal;
+    }
+    H.w.sid = H.store[0];
+    if (world_new_sessions(&H.w) < 0)
+    {
+        goto internal;
+    }
+    world_collect(&H.w, 0);
+    q = &H.w.wire[0];
+    if (q->n < 1 || q->r[q->head].p[0] != 22 || q->r[q->head].len + 16 > (int) sizeof(ch))
+    {
+        goto internal;
+    }
+    chl = q->r[q->head].len;
+    memcpy(ch, q->r[q->head].p, (size_t) chl);
+    world_wire_clear(&H.w, 0);
+    /* record(5) hs(4) version(2) random(32) sid suites compression extensions */
+    off = 5 + 4 + 2 + 32;
+    off += 1 + ch[off];
+    off += 2 + ((ch[off] << 8) | ch[off + 1]);
+    off += 1 + ch[off];
+    if (off + 2 > chl)
+    {
+        goto internal;
+    }
+    el = (ch[off] << 8) | ch[off + 1];
+    if (off + 2 + el != chl)
+    {
+        goto internal;
+    }
+    ch[chl++] = 0x00; ch[chl++] = 0x2b; ch[chl++] = 0x00; ch[chl++] = 0x03; ch[chl++] = 0x02; ch[chl++] = (unsigned char) (sv >> 8); ch[chl++] = (unsigned char) sv;
+    el += 7;
+    ch[off] = (unsigned char) (el >> 8); ch[off + 1] = (unsigned char) el;
+    ch[3] = (unsigned char) ((chl - 5) >> 8); ch[4] = (unsigned char) (chl - 5);
+    ch[6] = 0; ch[7] = (unsigned char) ((chl - 9) >> 8); ch[8] = (unsigned char) (chl - 9);
+    world_feed(&H.w, 1, ch, chl);
+    srv = H.w.s[1].ssl;
+    if (srv && (srv->flags & SSL_FLAGS_RESUMED) && srv->err == SSL_ALERT_NONE && !NGTD_VER(srv, v_tls_1_2))
+    {
+        viol = "ticket-resumed-under-another-protocol-version";
+    }
+    r->transitions = 2;
+    r->trace_hash = world_trace_hash(&H.w);
+    {
+        size_t l = strlen(r->outcome);
+        snprintf(r->outcome + l, sizeof(r->outcome) - l, ":%s:%s", srv && (srv->flags & SSL_FLAGS_RESUMED) ? "resumed" : "not-resumed", srv && NGTD_VER(srv, v_tls_1_2) ? "tls12" : srv && NGTD_VER(srv, v_tls_1_1) ? "tls11" : "other");
+    }
+    if (viol)
+    {
+        r->violation = 1;
+        snprintf(r->key, sizeof(r->key), "tls12-ticket|supported_versions=%04x|%s", sv, viol);
+        snprintf(r->what, sizeof(r->what), "TLS 1.2 ticket offered in a ClientHello with legacy_version 0303 and supported_versions {%04x}: the server negotiated that version and RESUMED the TLS 1.2 session (ticket checked against the provisional version only)", sv);
+    }
+    return;
+internal:
+    r->violation = 2;
+    snprintf(r->key, sizeof(r->key), "internal|partY|setup");
+    snprintf(r->what, sizeof(r->what), "part Y could not set up the ticket / ClientHello");
+}
+
 static void run_case_x(case_t *c, mx_result_t *r)
 {
     static hist_t H;
@@ -866,6 +953,11 @@ static void run_case(void *ctx, mx_result_t *r)
         run_case_x(c, r);
         return;
     }
+    if (c->mode == M_X + 1)
+    {
+        run_case_y(c, r);
+        return;
+    }
     setup(&H, c->mode);
     for (i = 0; i < c->depth && !H.viol[0]; i++)
     {
@@ -961,6 +1053,12 @@ static void run_group(long gi, void *unused)
             size_t l = strlen(path);
             snprintf(path + l, sizeof(path) - l, "%s%d", i ? "." : "", c->ops[i]);
         }
+        if (c->mode == M_X + 1)
+        {
+            snprintf(desc, sizeof(desc), "m=%d;e=%d;ops=%s (part Y: TLS 1.2 ticket, ClientHello with supported_versions {%04x} appended)", c->mode, c->edit, path, c->ops[0]);
+            mx_fork_case(desc, run_case, c);
+            continue;
+        }
         if (c->mode == M_X)
         {
             snprintf(desc, sizeof(desc), "m=%d;e=%d;ops=%s (part X: %s, %s, %s, %s)", c->mode, c->edit, path, c->ops[3] ? "dtls12" : "tls12", xpname[c->ops[0]], xename[c->ops[1]], xqname[c->ops[2]]);
@@ -1035,7 +1133,7 @@ int main(int argc, char **argv)
         mx_result_t r;
         const char *p;
         memset(&c, 0, sizeof(c));
-        if (sscanf(replay, "m=%d;e=%d;ops=", &c.mode, &c.edit) != 2 || c.mode > M_X)
+        if (sscanf(replay, "m=%d;e=%d;ops=", &c.mode, &c.edit) != 2 || c.mode > M_X + 1)
         {
             fprintf(stderr, "bad descriptor\n");
             return 2;
@@ -1138,6 +1236,18 @@ int main(int argc, char **argv)
                         c.ops[0] = xp; c.ops[1] = xe; c.ops[2] = xq; c.ops[3] = d;
                         add_case(&c);
                     }
+    }
+    /* part Y */
+    {
+        static const int svs[3] = { 0x0303, 0x0302, 0x0301 };
+        int k;
+        for (k = 0; k < 3; k++)
+        {
+            case_t c;
+            memset(&c, 0, sizeof(c));
+            c.mode = M_X + 1; c.edit = -1; c.depth = 1; c.ops[0] = svs[k];
+            add_case(&c);
+        }
     }
     mx_parallel((ncases + 31) / 32, run_group, NULL);
     return mx_finish(NULL);
